@@ -62,6 +62,7 @@ def programs():
     out += class_scope_programs()
     out += call_site_programs()
     out += destructor_scope_programs()
+    out += constant_scope_programs()
     return out
 
 
@@ -155,6 +156,24 @@ def destructor_scope_programs():
                                        Decl(C("Handle"), "t", New("Deep", I(2))), Destroy("t"), Echo(S("after destroy")),
                                        Block([Decl(C("Deep"), "u", New("Deep", I(3))), Decl(C("Handle"), "v", New("Handle", I(4)))]), Echo(S("end"))])
         out.append(Program([main], [handle, session, deep]))
+    return out
+
+
+def constant_scope_programs():
+    """'final int' locals with the same name and different constant values in different functions / sibling blocks, used (directly
+    and through derived constants) as array sizes: each array has the length its own scope's constant says"""
+    out = []
+    INT = P("int")
+    for names in (("width", "width", "width"), ("w1", "w2", "w3")):
+        a, b, c = names
+        header = Func("header", [], INT, [Decl(INT, a, I(2), final=True), Decl({"arr": "int", "size": Var(a)}, "cells"), Echo(Var("cells")), Ret(Var(a))])
+        body = Func("body", [], INT, [Decl(INT, b, I(4), final=True), Decl(INT, "twice", Bin("*", Var(b), I(2)), final=True), Decl({"arr": "int", "size": Var(b)}, "row"),
+                                      Decl({"arr": "float", "size": Var("twice")}, "weights"), Expr(AAsg("row", I(3), I(9))), Echo(Var("row")), Echo(Var("weights")), Ret(Bin("+", Var(b), Var("twice")))])
+        main = Func("main", [], VOID, [Echo(Call("header")), Echo(Call("body")),
+                                       Block([Decl(INT, c, I(3), final=True), Decl({"arr": "int", "size": Var(c)}, "x"), Echo(Var("x"))]),
+                                       Block([Decl(INT, c, I(1), final=True), Decl({"arr": "int", "size": Var(c)}, "y"), Echo(Var("y"))]), Echo(Call("header"))])
+        for order in ((header, body, main), (body, header, main)):
+            out.append(Program(list(order)))
     return out
 
 
